@@ -20,6 +20,13 @@ Contract (taken from the property statement, with the ghost variable `last` = ti
             R4  prev is None      ==>  release == ts                        (first request passes at once)
             R5  delta' == delta                                             (the interval is never changed)
   where delay = returned value or 0, release = ts + delay.
+Second contract (BasePolicer.wait / wait_sync; the callee get_timeout is used BY CONTRACT: its result is an arbitrary
+Optional[int] d, the clock value an arbitrary int):
+  ensures   W1  the function sleeps at most once
+            W2  the time slept is exactly max(d, 0) ns when d is not None, and nothing when d is None
+  extra subset for these two functions: `x = self.get_timeout(perf_counter_ns())`, truthiness of an Optional[int] local
+  (`delta and delta > 0`, short-circuit), and the statement `[await asyncio.]sleep(float(<int expr>) / NS)` which is
+  recorded as "slept <int expr> ns" (float(x) / 1e9 seconds; the float rounding of the seconds value is not modelled).
 Induction lemma (pure Z3, over the facts R2/R3 of k+1 consecutive calls):
             slots advance by >= delta and each release lies in its slot  ==>  release_{i+k} - release_i > (k-1)*delta.
 """
@@ -121,8 +128,18 @@ class Exec:
 
     def cond(self, e, p):
         if isinstance(e, ast.BoolOp):
-            vs = [self.cond(v, p) for v in e.values]
+            # short-circuit: the side conditions of a later operand are generated under the earlier ones
+            vs = []
+            q = Path(list(p.cond), p.env)
+            for v in e.values:
+                c = self.cond(v, q)
+                vs.append(c)
+                q = Path(q.cond + [c if isinstance(e.op, ast.And) else z3.Not(c)], p.env)
             return z3.And(*vs) if isinstance(e.op, ast.And) else z3.Or(*vs)
+        if isinstance(e, ast.Name) and e.id in p.env:
+            # truthiness of an Optional[int]: not None and not 0
+            v = p.env[e.id]
+            return z3.And(z3.Not(v.is_none), v.val != 0)
         if isinstance(e, ast.UnaryOp) and isinstance(e.op, ast.Not):
             return z3.Not(self.cond(e.operand, p))
         if isinstance(e, ast.Compare) and len(e.ops) == 1:
@@ -162,6 +179,20 @@ class Exec:
         if isinstance(st, ast.Return):
             v = NONE if st.value is None else self.expr(st.value, p)
             return [Path(p.cond, p.env, ret=v)]
+        if isinstance(st, ast.Assign) and len(st.targets) == 1 and self.is_get_timeout_call(st.value):
+            # modular call: the result of self.get_timeout(<clock>) is an arbitrary Optional[int] (callee contract above)
+            self.counter += 1
+            v = Opt(z3.Bool("gt_is_none_%d" % self.counter), z3.Int("gt_val_%d" % self.counter))
+            env = dict(p.env)
+            env[self.target(st.targets[0])] = v
+            env['@calls'] = p.env.get('@calls', []) + [v]
+            return [Path(p.cond, env)]
+        if isinstance(st, ast.Expr) and self.sleep_arg(st.value) is not None:
+            ns = self.expr(self.sleep_arg(st.value), p)
+            self.need_int(ns, p, st)
+            env = dict(p.env)
+            env['@sleeps'] = p.env.get('@sleeps', []) + [ns.val]
+            return [Path(p.cond, env)]
         if isinstance(st, ast.Assign) and len(st.targets) == 1:
             v = self.expr(st.value, p)
             env = dict(p.env)
@@ -191,6 +222,31 @@ class Exec:
             return self.block(st.body, [pt]) + self.block(st.orelse, [pf])
         raise Unsupported("statement %s at line %d" % (type(st).__name__, st.lineno))
 
+    @staticmethod
+    def is_get_timeout_call(e):
+        return (isinstance(e, ast.Call) and isinstance(e.func, ast.Attribute) and e.func.attr == 'get_timeout'
+                and isinstance(e.func.value, ast.Name) and e.func.value.id == 'self' and len(e.args) == 1 and not e.keywords
+                and isinstance(e.args[0], ast.Call) and isinstance(e.args[0].func, ast.Name) and e.args[0].func.id == 'perf_counter_ns'
+                and not e.args[0].args)
+
+    @staticmethod
+    def sleep_arg(e):
+        """`[await] [asyncio.]sleep(float(X) / NS)` -> X, else None."""
+        if isinstance(e, ast.Await):
+            e = e.value
+        if not (isinstance(e, ast.Call) and len(e.args) == 1 and not e.keywords):
+            return None
+        f = e.func
+        is_sleep = (isinstance(f, ast.Name) and f.id == 'sleep') or (
+            isinstance(f, ast.Attribute) and f.attr == 'sleep' and isinstance(f.value, ast.Name) and f.value.id == 'asyncio')
+        a = e.args[0]
+        if not (is_sleep and isinstance(a, ast.BinOp) and isinstance(a.op, ast.Div) and isinstance(a.right, ast.Name) and a.right.id == 'NS'):
+            return None
+        n = a.left
+        if isinstance(n, ast.Call) and isinstance(n.func, ast.Name) and n.func.id == 'float' and len(n.args) == 1:
+            return n.args[0]
+        return None
+
     def target(self, t):
         if isinstance(t, ast.Name):
             return t.id
@@ -217,7 +273,7 @@ def find_method(tree, cls, name):
     for st in tree.body:
         if isinstance(st, ast.ClassDef) and st.name == cls:
             for m in st.body:
-                if isinstance(m, ast.FunctionDef) and m.name == name:
+                if isinstance(m, (ast.FunctionDef, ast.AsyncFunctionDef)) and m.name == name:
                     return m
     return None
 
@@ -233,6 +289,88 @@ def replay_native(prev, delta, ts):
     o._delta = delta
     r = o.get_timeout(ts)
     return r, o._prev, o._delta
+
+
+def replay_wait(name, d):
+    """Run the real wait()/wait_sync() with a policer whose get_timeout returns d; returns the list of sleeps in ns."""
+    import importlib.util, asyncio
+    spec = importlib.util.spec_from_file_location("policer_under_test_w", SRC)
+    mod = importlib.util.module_from_spec(spec)
+    spec.loader.exec_module(mod)
+    slept = []
+
+    class P(mod.BasePolicer):
+        def get_timeout(self, ts):
+            return d
+
+    async def asleep(x):
+        slept.append(round(x * 1e9))
+    mod.sleep = lambda x: slept.append(round(x * 1e9))
+    real = mod.asyncio.sleep
+    mod.asyncio.sleep = asleep
+    try:
+        if name == 'wait':
+            asyncio.run(P().wait())
+        else:
+            P().wait_sync()
+    finally:
+        mod.asyncio.sleep = real
+    return slept
+
+
+def check_waits(tree, ex_consts, out, obligations):
+    """W1/W2 for BasePolicer.wait and wait_sync."""
+    for name in ('wait', 'wait_sync'):
+        fn = find_method(tree, 'BasePolicer', name)
+        if fn is None:
+            raise Unsupported("BasePolicer.%s is gone" % name)
+        if [a.arg for a in fn.args.args] != ['self']:
+            raise Unsupported("signature of %s changed" % name)
+        ex = Exec(ex_consts)
+        paths = ex.block(fn.body, [Path([], {})])
+        for i, (conds, goal, desc) in enumerate(ex.side):
+            s = z3.Solver()
+            for h in conds:
+                s.add(h)
+            s.add(z3.Not(goal))
+            r = s.check()
+            obligations.append(dict(id="%s.safe%d" % (name, i), fn='BasePolicer.' + name, where=desc, ok=(r == z3.unsat), unknown=(r == z3.unknown)))
+        for pi, p in enumerate(paths):
+            calls = p.env.get('@calls', [])
+            sleeps = p.env.get('@sleeps', [])
+            if len(calls) != 1:
+                raise Unsupported("%s: get_timeout is called %d times on a path" % (name, len(calls)))
+            d = calls[0]
+            want = z3.If(d.is_none, z3.IntVal(0), z3.If(d.val > 0, d.val, z3.IntVal(0)))
+            total = z3.IntVal(0)
+            for x in sleeps:
+                total = total + x
+            for oid, goal in (("W1_sleeps_at_most_once", z3.BoolVal(len(sleeps) <= 1)), ("W2_sleeps_exactly_the_delay", total == want)):
+                s = z3.Solver()
+                for h in p.cond:
+                    s.add(h)
+                s.add(z3.Not(goal))
+                t1 = time.time()
+                r = s.check()
+                out['solver_ms'] += int((time.time() - t1) * 1000)
+                ob = dict(id="%s.P%d.%s" % (name, pi, oid), fn='BasePolicer.' + name, where="path %d" % pi, ok=(r == z3.unsat), unknown=(r == z3.unknown))
+                if r == z3.sat:
+                    m = s.model()
+                    dv = None if z3.is_true(m.eval(d.is_none, model_completion=True)) else m.eval(d.val, model_completion=True).as_long()
+                    ob['message'] = 'counterexample: get_timeout returns %s' % dv
+                    try:
+                        got = replay_wait(name, dv)
+                        exp = dv if (dv is not None and dv > 0) else 0
+                        ob['replay'] = dict(input=dict(get_timeout_returns=dv), native=dict(slept_ns=got, expected_ns=exp),
+                                            replayed_natively=(sum(got) != exp or len(got) > 1), harness='pyvc native replay of BasePolicer.%s' % name)
+                    except Exception as e:  # noqa
+                        ob['replay'] = dict(input=dict(get_timeout_returns=dv), replayed_natively=False, error=str(e))
+                obligations.append(ob)
+            s = z3.Solver()
+            for h in p.cond:
+                s.add(h)
+            out['guards'].append(dict(guard='path-reachable', fn=name, path=pi, result=str(s.check())))
+        out['functions'].append(dict(fn='src/gufo/snmp/policer.py :: BasePolicer.' + name, contract=True, mode='pyvc-wp', paths=len(paths)))
 
 
 def main():
@@ -341,14 +479,20 @@ def main():
     s.add(d > 0, k >= 1, b >= a + k * d, c >= b + d, z3.Not(c >= a + (k + 1) * d))
     r = s.check()
     obligations.append(dict(id="L2_slots_k_steps_apart_induction_step", fn='lemma', where='R3 chained', ok=(r == z3.unsat)))
+    out['functions'] = [dict(fn='src/gufo/snmp/policer.py :: RPSPolicer.get_timeout', contract=True, mode='pyvc-wp', paths=len(paths))]
+    try:
+        check_waits(tree, module_consts(tree), out, obligations)
+    except Unsupported as e:
+        print(json.dumps(dict(inconclusive="unsupported construct: %s" % e)))
+        return 2
     if any(o.get('unknown') for o in obligations):
         print(json.dumps(dict(inconclusive="z3 returned unknown for %s" % [o['id'] for o in obligations if o.get('unknown')])))
         return 2
     out['obligations'] = obligations
-    out['functions'] = [dict(fn='src/gufo/snmp/policer.py :: RPSPolicer.get_timeout', contract=True, mode='pyvc-wp', paths=len(paths))]
     out['assumptions'] = [
         "[pyvc] RPSPolicer.__init__ (float arithmetic int(NS / rps)) is not modelled: delta > 0 after construction is assumed (the constructor raises for rps <= 0 and for delta == 0)",
-        "[pyvc] wait()/wait_sync() sleep exactly the returned delay and the clock is monotonic (ts >= previous release)",
+        "[pyvc] the clock is monotonic (ts >= previous release); sleep()/asyncio.sleep() return after the requested time; float(delay)/1e9 seconds is the delay (float rounding of the seconds value not modelled)",
+        "[pyvc] the sessions call wait()/wait_sync() before every request (sync_client / async_client glue: read, not under contract)",
         "[pyvc] Python ints are mathematical integers (exact in SMT Int)",
     ]
     print(json.dumps(out))
